@@ -13,6 +13,12 @@ from .rscan import Src, AnchorLost, code_mask, match_close, find_code, norm_ws
 
 REPO = os.environ.get("VERIF_REPO", "/repo")
 VERIF = os.path.dirname(os.path.dirname(os.path.dirname(os.path.abspath(__file__))))
+# developer sandbox (never set by the registered commands): with VERIF_DEV_SANDBOX=<name> (and usually VERIF_REPO=<scratch worktree>) all
+# scratch files, caches, replay files and evidence go to .work-<name>/ so that seeded-change experiments can run next to real checks.
+_SBX = os.environ.get("VERIF_DEV_SANDBOX", "")
+WORKDIR = os.path.join(VERIF, ".work" + ("-" + _SBX if _SBX else ""))
+EVIDENCE_DIR = os.path.join(WORKDIR, "evidence") if _SBX else os.path.join(VERIF, "evidence")
+REPLAY_DIR = os.path.join(WORKDIR, "replay") if _SBX else os.path.join(VERIF, "replay")
 
 
 class Unsupported(Exception):
@@ -502,6 +508,48 @@ def r_enumerate(body):
         body = body[:mo.start()] + new + body[b_close + 1:]
 
 
+def r_slicechunks(body):
+    """for PAT in E.chunks(N) { B }  ->  index loop over consecutive sub-slices of N elements, the last one shorter
+    (definition of slice::chunks for N > 0 and a loop body without `continue`/`break`; R-slicechunks).  vstd's `slice_subrange` is `&s[i..j]`."""
+    log = []
+    while True:
+        m = code_mask(body)
+        mo = None
+        for x in re.finditer(r"\bfor\s+(\w+)\s+in\s+", body):
+            if not m[x.start()]:
+                continue
+            d = 0
+            k = x.end()
+            while True:
+                if m[k]:
+                    ch = body[k]
+                    if ch in "([":
+                        d += 1
+                    elif ch in ")]":
+                        d -= 1
+                    elif ch == "{" and d == 0:
+                        break
+                k += 1
+            expr = body[x.end():k].strip()
+            cm = re.match(r"^(.*)\.chunks\(\s*([A-Za-z0-9_:]+)\s*\)$", expr, re.S)
+            if cm:
+                mo = (x, k, cm)
+                break
+        if mo is None:
+            return body, log
+        x, k, cm = mo
+        b_close = match_close(body, m, k)
+        lbody = body[k + 1:b_close]
+        if re.search(r"\b(continue|break)\b", lbody):
+            raise Unsupported("R-slicechunks: loop body contains `continue`/`break`")
+        pat, base, n = x.group(1), cm.group(1).strip(), cm.group(2)
+        new = ("{ let chunks_src_ = %s; let mut chunks_pos_: usize = 0; while chunks_pos_ < chunks_src_.len() { "
+               "let chunks_end_: usize = if chunks_src_.len() - chunks_pos_ < %s { chunks_src_.len() } else { chunks_pos_ + %s }; "
+               "let %s = vstd::slice::slice_subrange(chunks_src_, chunks_pos_, chunks_end_); %s chunks_pos_ = chunks_end_; } }") % (base, n, n, pat, lbody)
+        log.append(("R-slicechunks", norm_ws(body[x.start():k])[:160], norm_ws(new)[:160] + " ..."))
+        body = body[:x.start()] + new + body[b_close + 1:]
+
+
 def r_tryfold(body):
     """RECV.try_fold(INIT, |ACC, PAT| BODY)  ->  { let mut ACC = INIT; for PAT in RECV { ACC = (BODY)?; } ACC_OK }
     where the whole expression is in tail / `?` position; emitted as a block evaluating to Result: Ok(ACC).
@@ -624,10 +672,29 @@ def splice_sig(sig, ret_name, requires, ensures, extra=None):
 # --------------------------------------------------------------------------------------------------
 
 def _stmt_end(body, m, pos):
-    """index just after the `;` that ends the statement containing pos (same nesting level)."""
+    """index just after the `;` that ends the statement containing pos (same nesting level); a statement that starts with a block
+    keyword (if / for / while / loop / match) ends at the close of its last block (else-chains included)."""
+    n = len(body)
+    if re.match(r"(if|for|while|loop|match)\b", body[pos:pos + 6]):
+        k = pos
+        while True:
+            d = 0
+            while k < n and not (m[k] and body[k] == "{" and d == 0):
+                if m[k] and body[k] in "([":
+                    d += 1
+                elif m[k] and body[k] in ")]":
+                    d -= 1
+                k += 1
+            if k >= n:
+                raise AnchorLost("statement end not found")
+            k = match_close(body, m, k) + 1
+            em = re.match(r"\s*else\b", body[k:])
+            if not em:
+                em2 = re.match(r"\s*;", body[k:])
+                return k + (em2.end() if em2 else 0)
+            k += em.end()
     d = 0
     k = pos
-    n = len(body)
     while k < n:
         if m[k]:
             ch = body[k]
@@ -873,6 +940,9 @@ def emit_fn(f, udir, unit_props, recs, log_global):
             log += l
         if "enumerate" in rewrites:
             body, l = r_enumerate(body)
+            log += l
+        if "slicechunks" in rewrites:
+            body, l = r_slicechunks(body)
             log += l
         if "matchcount" in rewrites:
             body, l = r_matchcount(body)
